@@ -213,6 +213,46 @@ func main() {
 		}
 		run.Tally("roundtrip:ok")
 	}
+	// 2b. serial / base numbers beyond what the ASN.1 INTEGER of the payload carries (int64): valid by
+	// TRC.Validate (1 <= base <= serial as unsigned numbers), yet the encoding wraps to a negative number
+	// that DecodeTRC rejects -- known finding serial-beyond-int63
+	for k, ser := range []uint64{1 << 63, 1<<63 + 7, 1<<64 - 2} {
+		r := rng.Fork(uint64(7000000 + k))
+		t := trcgen.GenTRC(r, uint64(r.Range(1, 3)), false, trcgen.RandShape(r), 0)
+		t.Serial = ser
+		if k == 2 {
+			t.Base = 1<<63 + 1
+		}
+		if !run.Want() {
+			run.Skip()
+			continue
+		}
+		real, t := f.BuildTRC(t)
+		verr := real.Validate()
+		code := validateCode(verr)
+		id := run.Add("validate", vgen.App("PKI.CValidate", t.Gallina(), vgen.Z(int64(code)))+"%Z", t.Gallina(),
+			true, map[string]any{"mutations": []string{"serial-beyond-int63"}, "impl_code": code, "err": fmt.Sprint(verr),
+				"id": fmt.Sprintf("ISD%d-B%d-S%d", t.ISD, t.Base, t.Serial)})
+		run.Tally(fmt.Sprintf("serial-beyond-int63:validate-code%d", code))
+		if verr != nil {
+			continue
+		}
+		raw, err := real.Encode()
+		if err != nil {
+			run.Violate(id, "valid TRC does not encode: "+err.Error(), t.Serial, "roundtrip", "serial-beyond-int63")
+			continue
+		}
+		dec, err := cppki.DecodeTRC(raw)
+		if err != nil {
+			run.Violate(id, "encoded valid TRC does not decode: "+err.Error(), t.Serial, "roundtrip", "serial-beyond-int63")
+			continue
+		}
+		if d := sameTRC(&real, &dec); d != "" {
+			run.Violate(id, "round trip changes "+d, t.Serial, "roundtrip", "serial-beyond-int63")
+			continue
+		}
+		run.Tally("roundtrip:ok-serial-beyond-int63")
+	}
 	// 3. decoder direction
 	decodeStream(run, rng, f)
 
